@@ -230,7 +230,21 @@ func (in *Interp) strTerm(v value) *smt.Term {
 		if s, ok := in.bstrConcrete(v); ok {
 			return in.C.StrConst(s)
 		}
-		panic(unsupported{"byte-level symbolic string used as Str term"})
+		// a string of symbolic bytes as an atom: the opaque string numbered by an uninterpreted function
+		// of its bytes (equal bytes give equal strings; it never equals a literal, a numeral or a hash
+		// string - an under-approximation recorded as an assumption).
+		if len(v.b) == 0 || len(v.b) > 64 {
+			panic(unsupported{"byte-level symbolic string used as Str term"})
+		}
+		args := make([]*smt.Term, len(v.b))
+		sorts := make([]smt.Sort, len(v.b))
+		for i, x := range v.b {
+			args[i], sorts[i] = x.(*smt.Term), smt.BV(8)
+		}
+		name := fmt.Sprintf("bytestr%d", len(v.b))
+		in.C.DeclareFun(name, sorts, smt.Int)
+		in.path.noteAssumption("a string built from symbolic bytes is an opaque atom determined by its bytes (never equal to a literal)")
+		return in.C.StrOpq(in.C.App(name, args...))
 	}
 	panic(fmt.Sprintf("strTerm: unexpected %T", v))
 }
@@ -284,6 +298,8 @@ func (in *Interp) equals(t types.Type, x, y value) *smt.Term {
 			return in.bstrEq(x, y)
 		case string:
 			return in.bstrEq(x, bstr{in.bytesOfString(y)})
+		case *smt.Term:
+			return c.Eq(in.strTerm(x), y)
 		}
 	case float64:
 		return c.BoolConst(x == y.(float64))
